@@ -559,9 +559,12 @@ impl ParsedValue {
         key_path: &KeyPath,
     ) -> Result<Self> {
         match self {
-            ParsedValue::Default | ParsedValue::ForeignKey(_) | ParsedValue::Literal(_) => {
-                Ok(self.clone())
-            }
+            ParsedValue::Default | ParsedValue::Literal(_) => Ok(self.clone()),
+            // the args must also reach the variables that come from a chain of foreign keys.
+            ParsedValue::ForeignKey(inner) => match inner.try_borrow().as_deref() {
+                Ok(ForeignKey::Set(inner)) => inner.populate(args, foreign_key, locale, key_path),
+                _ => Ok(self.clone()),
+            },
             ParsedValue::Variable { key, formatter } => match args.get(&*key.name) {
                 Some(value) => Ok(value.clone()),
                 None => Ok(ParsedValue::Variable {
